@@ -18,8 +18,8 @@ RULE = ("1-3 unicode memos (unique texts, 1..120 bytes, multi-byte characters sp
         "only at the end, once-style, or stage by stage; non-trivial = some memo has >= 2 grams and the delivery is "
         "not the send order, or has a duplicate, or memos are interleaved")
 MODELLED = ["Memoer.sign (keep lookup + libsodium) as a parameter of the model instantiated with the recorded real calls",
-            "Memoer.verify as in C22", "makeMID (uuid1) replaced by deterministic 24 char ids; the size setter "
-            "(effective .size is an input of the model)", "math.ceil of a true division as exact integer ceiling",
+            "Memoer.verify as in C22", "makeMID (uuid1) replaced by deterministic 24 char ids; the default MaxGramSize (65535) when no size is "
+            "requested (the model then only checks the lower bound of the effective size)", "math.ceil of a true division as exact integer ceiling",
             "bytes.decode()/str.encode() as identity on UTF-8 bytes plus a validity predicate"]
 
 ALPHABET = "abcdefghijklmnopqrstuvwxyz ABC 0123456789 é ü € 中 \U0001f600"
@@ -327,8 +327,9 @@ def to_coq(case, obs):
             grams = f"(@Exc (list bytes) {s['exc']})"
         else:
             grams = "(Ok %s)" % coq_list([mc.hexb(g) for g in s["grams"]], "bytes")
-        sents.append("{| MemoRx.s_params := %s; MemoRx.s_text := %s; MemoRx.s_grams := %s |}" % (
-            params, coq_bytes(memo["text"].encode()), grams))
+        req = "(@None nat)" if memo["size"] is None else f"(Some {coq_nat(memo['size'])})"
+        sents.append("{| MemoRx.s_params := %s; MemoRx.s_req := %s; MemoRx.s_text := %s; MemoRx.s_grams := %s |}" % (
+            params, req, coq_bytes(memo["text"].encode()), grams))
     st = [f"({mc.hexb(v)}, {mc.hexb(m)}, {mc.hexb(sg)})" for v, m, sg in obs["sign"]]
     rx = mc.coq_rx_case(case["authic"], obs["ops"], obs, obs["excs"])
     return "{| MemoRx.k_sign := %s; MemoRx.k_sent := %s; MemoRx.k_rx := %s |}" % (
